@@ -559,7 +559,7 @@ impl Feig {
         Ok(TransactionSummary {
             terminal_id: status_information
                 .terminal_id
-                .map(|inner| inner.to_string()),
+                .map(|n| format!("{:08}", n)),
             date: status_information.date.map(|n| format!("{:04}", n)),
             time: status_information.time.map(|n| format!("{:06}", n)),
             amount: status_information.amount.map(|inner| inner as u64),
